@@ -238,6 +238,9 @@ def run(model: RepoModel, rep, tier: str):
     # `import helper; helper.f(x)`: the receiver of the call is a MODULE.  The handler of field reads looks the field up among the module's
     # symbols (branch `is_state_a_unit(receiver)`); the handler of method-call statements resolves `<receiver>.<field>` too and must do the same,
     # otherwise a function called through its module is no callee at all
+    from .. import generic4
+    rep.rule("C07.R11", "a relative import is searched in the right package: n leading dots climb n-1 packages above the importing file's own package (dot counter, guarded level assignment and the range of the climbing loop evaluated for 1..5 dots)", 1)
+    generic4.check_relative_import_levels(model, rep, "C07.R11")
     rep.rule("C07.R10", "a call through a module (`import m; m.f()`) is resolved like a read of `m.f`: every handler that resolves `<receiver>.<field>` "
                         "looks the field up among a module receiver's symbols", 2)
     resolvers = [h for h in (st.methods.get("field_read_stmt_state"), st.methods.get("object_call_state")) if h is not None]
